@@ -114,6 +114,9 @@ func (P) Exec(line string) string {
 		return execSched(unhx(f[2]), f[3], f[4] == "1")
 	case "vec":
 		return execVec(unhx(f[2]), f[3], f[4] == "1", atoi(f[5]), unhx(f[6]), atoi(f[7]), unhx(f[8]), f[9] == "1")
+	case "loop":
+		return execLoop(f[2], unhx(f[3]), unhx(f[4]), atoi(f[5]), atoi(f[6]), splitList(f[7], ","), splitList(f[8], ","),
+			splitList(f[9], ";"), splitList(f[10], ";"))
 	case "peerhs":
 		return execPeerhs(f[2] == "1", f[3] == "1", f[4], f[5], atoi(f[6]))
 	case "rwio":
